@@ -571,3 +571,17 @@ Proof.
   rewrite <- G in H1. cbn in H1. apply filter_In in H1 as [_ H1]. cbn in H1.
   rewrite CK, CU, !String.eqb_refl in H1. discriminate.
 Qed.
+
+(* the guard of exchange_live is needed: the witness of Fxx-C08-1 at the level of one request *)
+Lemma exchange_live_refuted :
+  exists cl s r c subj styp actor req scopes aud,
+    (exists s' i x rt lv sc sto, exchange cl r s c subj styp actor req scopes aud = (s', OExch i x rt lv sc sto)) /\
+    subj_live (fst s) styp subj = false.
+Proof.
+  exists refuting_clients,
+    (state_after refuting_clients init
+       [Issue Prov "web2" "bob" ["openid"];
+        Revoke Prov (Post "web2" "web2-secret") (Jwt true true false (AT 2) "bob" "") false]),
+    Prov, (Basic "web" "web-secret"), (Jwt true true false (AT 2) "bob" ""), TId, None, TAccess, ["openid"], ["web"].
+  split; [|vm_compute; reflexivity]. vm_compute. repeat eexists.
+Qed.
